@@ -59,6 +59,8 @@ pub fn run() -> anyhow::Result<()> {
     let mut input = Resources::new();
     if head[3] == "1" {
         input.files.push(crate::domain::FilesResource { paths: vec![dir.join("src_in")], extensions: None });
+        // never "unchanged": whether a run is skipped is an oracle of the protocol model, not part of these traces
+        input.cmds.push(crate::domain::CmdResource { cmd: "date +%s%N".to_string(), dir: dir.clone() });
     }
     let target = match head[1] {
         "build" => Target::Build(BuildTarget { metadata, build_script: format!("echo {}", head[2]), input, output: Resources::new() }),
